@@ -11,6 +11,7 @@ type VerifCacheSize struct {
 	Bytes             int
 	CapacityBytes     int
 	LargestStateBytes int
+	ReservedBytes     int // row 0 of the flat transition table (dead state), billed by MemoryUsage
 }
 
 // VerifStateSizes describes the mutable per-search state that the engine keeps
@@ -34,8 +35,8 @@ func (e *Engine) VerifStateSizes() (sizes VerifStateSizes, ok bool) {
 		if c == nil {
 			return
 		}
-		capacity, _, largest := c.VerifCapacity()
-		sizes.Caches = append(sizes.Caches, VerifCacheSize{Name: name, States: c.Size(), Bytes: c.MemoryUsage(), CapacityBytes: capacity, LargestStateBytes: largest})
+		capacity, stride, largest := c.VerifCapacity()
+		sizes.Caches = append(sizes.Caches, VerifCacheSize{Name: name, States: c.Size(), Bytes: c.MemoryUsage(), CapacityBytes: capacity, LargestStateBytes: largest, ReservedBytes: stride * 4})
 	}
 	add("dfaCache", state.dfaCache)
 	add("revDFACache", state.revDFACache)
